@@ -176,6 +176,19 @@ Theorem C17_stop_cause a x force :
 Proof. exact (seq_stop a x force). Qed.
 Print Assumptions C17_stop_cause.
 
+(* the cause is written only by the winner of the CAS Running->Stopping: a member that terminates later,
+   with whatever reason, does not touch a.reason (only D_reason of the winner and the `normal` default
+   of the finaliser write it) *)
+Theorem C17_late_death_keeps_reason s r :
+  st s <> SR ->
+  step_pc s (D_stopping r) = Some (s, D_starting) /\
+  (forall s' p', step_pc s (D_mode r) = Some (s', p') -> reason s' = reason s) /\
+  (forall p, die_inflight p = true ->
+     match p with D_reason _ | D_default => True | _ =>
+       forall s' p', step_pc s p = Some (s', p') -> reason s' = reason s end).
+Proof. exact (late_death_keeps_reason s r). Qed.
+Print Assumptions C17_late_death_keeps_reason.
+
 (* ... and under concurrency refuted (known finding cause-race) *)
 Theorem C17_cause_race_refuted :
   exists threads sched, forallb initial_pc threads = true /\ cause_race_b threads sched = true.
